@@ -322,6 +322,25 @@ func c12R2(c *Ctx, r *Report) {
 					}
 				}
 			}
+			if ap, isAp := arg.(*ssa.Call); !ok && isAp && calleeNameSSA(&ap.Call) == "builtin.append" && len(ap.Call.Args) == 2 && ap.Call.Args[1] == m {
+				// binary.BigEndian.AppendUint16(make([]byte, 0, n), uint16(len(m))) with the message appended to it
+				if pre, isCall := ap.Call.Args[0].(*ssa.Call); isCall {
+					name := calleeNameSSA(&pre.Call)
+					if strings.HasSuffix(name, "bigEndian).AppendUint16") && len(pre.Call.Args) == 3 {
+						mk2, isMk := pre.Call.Args[1].(*ssa.MakeSlice)
+						v := pre.Call.Args[2]
+						if cv, isCv := v.(*ssa.Convert); isCv {
+							v = cv.X
+						}
+						l2, isLen := v.(*ssa.Call)
+						if isMk && isLen && calleeNameSSA(&l2.Call) == "builtin.len" && l2.Call.Args[0] == m {
+							if k, isK := constIntOf(mk2.Len); isK && k == 0 {
+								mk, ok, okCopy, okPrefix, frameDone = mk2, true, true, true, ap
+							}
+						}
+					}
+				}
+			}
 			if !ok {
 				problems = append(problems, fmt.Sprintf("%s: writes %v, neither the message nor a freshly framed copy", c.pos(call.Pos()), arg))
 				return
